@@ -154,7 +154,7 @@ theorem addNode_cases (t : Tree) (next parent : NodeId) (src : T) (inThis : Bool
         | ok t1 => exact Or.inr ⟨t1, hadd, by simp, rfl⟩
       | some d =>
         simp only
-        by_cases hc3 : (d.truthy && d != src.did) = true
+        by_cases hc3 : (d != src.did) = true
         · rw [if_pos hc3]; exact Or.inl ⟨_, rfl⟩
         · rw [if_neg hc3]
           cases hadd : t.addData next parent src.data before (some ((some d).getD src.did))
